@@ -152,6 +152,35 @@ def r15(ctx, lib):
               'check_can_rename reads every failure of the lstat as "the target is free" and does not look at the parents: with a regular file (or a dangling link) where a parent directory of the '
               'target is needed - `DIR/home/u/a` is a file, or DIR itself is one - the command passes the precondition, `move --dry-run` prints it and counts the file, and the real run fails in '
               'mkdirs ("File exists" / "Not a directory")')
+    # the walk runs while other threads create these very directories (mkdirs of their own moves): "absent" from one stat and "present" from a
+    # second stat of the same ancestor is then no evidence of a dangling link - a refusal must not hang on such a pair
+    from ..analysis import result_tests, switch_targets_bool
+    stats = [c for c in b.calls(EXIST_FOLLOW + '|' + EXIST_NOFOLLOW) if backslice(b, c.args[:1]).has_call(r'path::Path::parent$')]
+    racy = None
+    for c1 in stats:
+        t1 = result_tests(b, c1)
+        for sw_bb, t_ in t1.items():
+            absent_side = t_['err']
+            for c2 in stats:
+                if c2 is c1 or not b.dominates(absent_side, c2.bb):
+                    continue
+                # c2 is consulted only after c1 said "not there"; does its success lead to a refusal (an Err return) ?
+                t2 = result_tests(b, c2)
+                isok = [x for x in b.calls(r'Result(::)?<.*>::is_ok$') if op_local(x.args[0]) is not None and c2.dest[0] in backslice(b, [x.args[0]]).locals]
+                for x in isok:
+                    for (bbx, idx, what) in b.operand_uses(x.dest[0]):
+                        if what[0] == 'switch':
+                            tt, ft = switch_targets_bool(what[1])
+                            if tt is not None and 'Err' in return_variants_from(b, tt) and 'Ok' not in return_variants_from(b, tt):
+                                racy = c2
+                for sw2, t2_ in t2.items():
+                    rv_ok = return_variants_from(b, t2_['ok'])
+                    if 'Err' in rv_ok and 'Ok' not in rv_ok:
+                        racy = c2
+    ctx.check(racy is None, 'C18.R5', P + '|one-look-per-ancestor', (racy.where() if racy else b.where(line)), 'no refusal depends on two stats of one ancestor disagreeing',
+              'an ancestor of the target is examined twice - the first stat says it is not there, the second one says it exists - and the disagreement is read as a dangling link: the directories '
+              'below DIR are being created at that very moment by the threads that execute the moves of other groups, so a perfectly good fresh directory is reported as "not a directory", the command is '
+              'dropped and the file is not moved although the dry run announced it (about one run in four with 300 groups into a fresh DIR)')
     # a positive test returns Err; both outcomes present
     rv = return_variants_from(b, 0)
     ctx.check('Err' in rv and 'Ok' in rv, 'C18.R1', P + '|returns-err-when-exists', b.where(line), 'returns Err on one side of the test and Ok on the other', 'check_can_rename returns %s' % sorted(rv))
